@@ -162,15 +162,25 @@ def rule_order_table(ctx):
             if d_["p"]:
                 harmless = False
                 break
-            uses = uses_of_local(fn_, d_["l"])
             if m_ == "load" or m_.startswith("fetch_") or m_ == "swap" or m_.startswith("compare_exchange"):
-                for u in uses:
-                    okuse = False
-                    if u[0] == "stmt":
-                        s_ = u[3]
-                        if s_["lhs"]["l"] == 0 and not s_["lhs"]["p"] and "use" in s_["rv"]:
-                            okuse = m_ == "load"
-                    if not okuse:
+                # the value read may only be copied around / packed into aggregates on its way to the return value:
+                # it never steers a branch, indexes, or reaches a call
+                work_, seen_ = [d_["l"]], set()
+                while work_ and harmless:
+                    l_ = work_.pop()
+                    if l_ in seen_:
+                        continue
+                    seen_.add(l_)
+                    for u in uses_of_local(fn_, l_):
+                        if u[0] == "stmt":
+                            s_ = u[3]
+                            rv_ = s_["rv"]
+                            if ("use" in rv_ or "agg" in rv_ or "cast" in rv_) and not s_["lhs"]["p"]:
+                                if m_ != "load" and s_["lhs"]["l"] == 0:
+                                    harmless = False   # an RMW whose old value is returned may be used for ordering by callers
+                                if s_["lhs"]["l"] != 0:
+                                    work_.append(s_["lhs"]["l"])
+                                continue
                         harmless = False
         if harmless and all("Atomic<*" not in str(fn_.b["locals"][t_["args"][0].get("move", t_["args"][0].get("copy", {"l": 0}))["l"]]["ty"]) for fn_, bi_, t_, m_, where_ in ops):
             for fn_, bi_, t_, m_, where_ in ops:
